@@ -136,7 +136,7 @@ pub open spec fn nt_post<M: Math, S: Settings>(settings: &S, math: &M, r: Result
 
 // ---- lemmas -----------------------------------------------------------------------------
 
-
+/// under the reserved-name precondition the `continue` of the draws loop never fires: skipping or not is the same
 // [C14.4]
 pub proof fn lemma_no_reserved(sch: Seq<VarDecl>, n_chains: usize, total: usize, sizes: Map<Seq<char>, u64>)
     requires no_reserved(sch)
@@ -152,7 +152,6 @@ pub proof fn lemma_no_reserved(sch: Seq<VarDecl>, n_chains: usize, total: usize,
         assert(!skipped(sch[sch.len() - 1].name));
     }
 }
-
 
 // [C14.4 C14.5]
 pub proof fn lemma_arrs_insert(m: Map<Seq<char>, NdarrayValue>, k: Seq<char>, v: NdarrayValue)
@@ -214,7 +213,7 @@ pub proof fn lemma_decl_arrays_exact(sch: Seq<VarDecl>, skip: bool, n_chains: us
     }
 }
 // ---- prefix forms used by the loop invariants of new_trace (k = number of schema entries / dims consumed);
-// the broadcast lemmas below unfold them one step, so the invariants need no text-anchored proof hints
+// the `*_steps` facts below unfold them one step, so the invariants need no text-anchored proof hints
 
 /// arrays declared by the first k schema entries
 pub open spec fn decl_prefix(sch: Seq<VarDecl>, k: int, skip: bool, n_chains: usize, total: usize, sizes: Map<Seq<char>, u64>) -> Arrs {
@@ -234,13 +233,14 @@ pub open spec fn strs_are(all: Seq<String>, dims: Seq<Seq<char>>) -> bool {
     &&& forall|j: int| 0 <= j < all.len() ==> (#[trigger] all[j])@ == dims[j]
 }
 
-/// the step / end facts of `decl_prefix` for every k (carried as a loop invariant: Verus loop bodies do not see
+/// the step / end facts of `decl_prefix` for every k; the predecessor is written in unfolded form
+/// (`decl_arrays(sch.take(k - 1), ..)`) so that an instance does not create a new trigger term (no matching loop).  (Carried as a loop invariant: Verus loop bodies do not see
 /// `broadcast use` of the enclosing function, and a module-level `broadcast use` of a lemma of the same module is cyclic)
 pub open spec fn decl_steps(sch: Seq<VarDecl>, skip: bool, n_chains: usize, total: usize, sizes: Map<Seq<char>, u64>) -> bool {
     forall|k: int| {
         let p = #[trigger] decl_prefix(sch, k, skip, n_chains, total, sizes);
         &&& k == 0 ==> p == Map::<Seq<char>, ArrSpec>::empty()
-        &&& 0 < k <= sch.len() ==> p == decl_step(decl_prefix(sch, k - 1, skip, n_chains, total, sizes), sch[k - 1], skip, n_chains, total, sizes)
+        &&& 0 < k <= sch.len() ==> p == decl_step(decl_arrays(sch.take(k - 1), skip, n_chains, total, sizes), sch[k - 1], skip, n_chains, total, sizes)
         &&& k == sch.len() ==> p == decl_arrays(sch, skip, n_chains, total, sizes)
     }
 }
@@ -248,7 +248,7 @@ pub open spec fn shape_steps(n_chains: usize, total: usize, sizes: Map<Seq<char>
     forall|dims: Seq<Seq<char>>, k: int| {
         let p = #[trigger] shape_prefix(n_chains, total, sizes, dims, k);
         &&& k == 0 ==> p == seq![n_chains, total]
-        &&& 0 < k <= dims.len() ==> p == shape_prefix(n_chains, total, sizes, dims, k - 1).push(sizes[dims[k - 1]] as usize)
+        &&& 0 < k <= dims.len() ==> p == (seq![n_chains, total] + ext_shape(sizes, dims.take(k - 1))).push(sizes[dims[k - 1]] as usize)
         &&& k == dims.len() ==> p == seq![n_chains, total] + ext_shape(sizes, dims)
     }
 }
@@ -256,7 +256,7 @@ pub open spec fn known_steps(sizes: Map<Seq<char>, u64>) -> bool {
     forall|dims: Seq<Seq<char>>, k: int| {
         let p = #[trigger] known_prefix(sizes, dims, k);
         &&& k == 0 ==> p
-        &&& 0 < k <= dims.len() ==> p == (known_prefix(sizes, dims, k - 1) && sizes.contains_key(dims[k - 1]))
+        &&& 0 < k <= dims.len() ==> p == (dims_known(sizes, dims.take(k - 1)) && sizes.contains_key(dims[k - 1]))
         &&& k == dims.len() ==> p == dims_known(sizes, dims)
     }
 }
@@ -298,7 +298,7 @@ pub proof fn lemma_decl_steps(sch: Seq<VarDecl>, skip: bool, n_chains: usize, to
     assert forall|k: int| {
         let p = #[trigger] decl_prefix(sch, k, skip, n_chains, total, sizes);
         &&& k == 0 ==> p == Map::<Seq<char>, ArrSpec>::empty()
-        &&& 0 < k <= sch.len() ==> p == decl_step(decl_prefix(sch, k - 1, skip, n_chains, total, sizes), sch[k - 1], skip, n_chains, total, sizes)
+        &&& 0 < k <= sch.len() ==> p == decl_step(decl_arrays(sch.take(k - 1), skip, n_chains, total, sizes), sch[k - 1], skip, n_chains, total, sizes)
         &&& k == sch.len() ==> p == decl_arrays(sch, skip, n_chains, total, sizes)
     } by {
         if 0 < k <= sch.len() {
@@ -318,7 +318,7 @@ pub proof fn lemma_shape_steps(n_chains: usize, total: usize, sizes: Map<Seq<cha
     assert forall|dims: Seq<Seq<char>>, k: int| {
         let p = #[trigger] shape_prefix(n_chains, total, sizes, dims, k);
         &&& k == 0 ==> p == seq![n_chains, total]
-        &&& 0 < k <= dims.len() ==> p == shape_prefix(n_chains, total, sizes, dims, k - 1).push(sizes[dims[k - 1]] as usize)
+        &&& 0 < k <= dims.len() ==> p == (seq![n_chains, total] + ext_shape(sizes, dims.take(k - 1))).push(sizes[dims[k - 1]] as usize)
         &&& k == dims.len() ==> p == seq![n_chains, total] + ext_shape(sizes, dims)
     } by {
         if k == 0 {
@@ -341,7 +341,7 @@ pub proof fn lemma_known_steps(sizes: Map<Seq<char>, u64>)
     assert forall|dims: Seq<Seq<char>>, k: int| {
         let p = #[trigger] known_prefix(sizes, dims, k);
         &&& k == 0 ==> p
-        &&& 0 < k <= dims.len() ==> p == (known_prefix(sizes, dims, k - 1) && sizes.contains_key(dims[k - 1]))
+        &&& 0 < k <= dims.len() ==> p == (dims_known(sizes, dims.take(k - 1)) && sizes.contains_key(dims[k - 1]))
         &&& k == dims.len() ==> p == dims_known(sizes, dims)
     } by {
         if 0 < k <= dims.len() {
